@@ -27,14 +27,12 @@ ASSUMPTIONS = [
     "chord labels reach the rules only through chord.encode_many; label-level transposition equals the model's "
     "transposeEnc by theorem (C09_Labels.encode_transpose, on the C10 encode model) and by the correspondence suite "
     "chord_transpose_enc on the real encoder",
+    "transpose_evaluate (C09_Evaluate) is about ChordEval.evaluateStr, the model of chord.evaluate on label strings "
+    "(two encoders: reduced for fusing neighbours, non-reduced for the 12 rules), tied to the real function by the "
+    "correspondence suite chord_evaluate (all 15 scores / exception class on the 1/32 s lattice); the labels it "
+    "quantifies over are the grammar trees of C10 rendered to strings (every label the chord grammar accepts)",
 ]
-UNPROVED = [
-    "transpose_evaluate (invariance of chord.evaluate's duration-weighted averages as a Lean theorem): the per-pair "
-    "statement is proved at label level (C09_Labels.encode_respell / encode_transpose / label_cmp_transpose: every "
-    "comparison rule is invariant under joint transposition / respelling of LABELS); lifting it to chord.evaluate "
-    "needs the interval-merging model and is covered by the chord.evaluate oracle on the real code only",
-    "§3 frequency scaling / octave theorems (melody, multipitch, transcription): other slice",
-]
+UNPROVED = []
 EXHAUSTIVE = {"quick": True, "thorough": True}
 
 SUITES, CHECKERS, ORACLES = {}, {}, {}
@@ -201,6 +199,91 @@ def gen_chord_evaluate(rng, tier, shard, nshards, boost):
         yield {"ref_intervals": ri, "ref_labels": rl, "est_intervals": ei, "est_labels": el, "variants": variants}
 
 
+_EVAL_KEYS = ["thirds", "thirds_inv", "triads", "triads_inv", "tetrads", "tetrads_inv", "root", "mirex", "majmin",
+              "majmin_inv", "sevenths", "sevenths_inv", "underseg", "overseg", "seg"]
+# neighbours that the fusing key (encode_many(labels, True): extended chords reduced) and the compared encoding
+# (encode_many(labels, False)) treat differently
+_REDUCE_QUIRKS = [["C:9", "C:7"], ["C:9", "C:7(9)"], ["D:maj9", "D:maj7(9)"], ["E:min11", "E:min7"],
+                  ["F#:13", "Gb:13"], ["A:min9", "A:min7(9)"], ["G:7", "G:7(9)"], ["Bb:maj13", "Bb:maj7"]]
+_BAD_LABELS = ["H:maj", "C:foo", "C:maj/15", "", "c", "C:maj11", "C:aug7"]
+
+
+def _py_evaluate_all(ri, rl, ei, el):
+    d = mir_eval.chord.evaluate(np.array([[float(s), float(e)] for s, e in ri], dtype=float).reshape(-1, 2), list(rl),
+                                np.array([[float(s), float(e)] for s, e in ei], dtype=float).reshape(-1, 2), list(el))
+    if list(d.keys()) != _EVAL_KEYS:
+        raise AssertionError("chord.evaluate keys: %r" % list(d.keys()))
+    return [float(d[k]) for k in _EVAL_KEYS]
+
+
+def _frac_intervals(rng, n, start, contiguous=True):
+    t = start
+    out = []
+    for _ in range(n):
+        if not contiguous and rng.random() < 0.3:
+            t += rng.randint(1, 24)
+        d = rng.randint(1, 96)
+        out.append([Fr(t, 32), Fr(t + d, 32)])
+        t += d
+    return out
+
+
+def suite_chord_evaluate(rng, tier, shard, nshards):
+    """chord.evaluate on LABEL STRINGS (all 15 scores, or the exception class): the model evaluateStr — adjust the
+    estimate to the reference span with 'N', fuse neighbours by the REDUCED encoding, merge, durations, the 12 rules on
+    the NON-reduced encoding, under/overseg/seg — against the real function, on the 1/32 s lattice; estimates that
+    start late / end early / lie outside the span, gaps, repeated and respelled neighbours, the reduce quirk pairs,
+    and labels that do not encode (in and outside the reference span)"""
+    n = (500 if tier == "quick" else 10000) // nshards
+    p = cl.pool()
+    for _ in range(n):
+        nr, ne = rng.randint(1, 6), rng.randint(0 if rng.random() < 0.04 else 1, 6)
+        ri = _frac_intervals(rng, nr, rng.choice([0, 0, 16]))
+        ei = _frac_intervals(rng, ne, rng.choice([0, 0, 8, 40, 400]), contiguous=rng.random() < 0.8)
+        rl = []
+        for _ in range(nr):
+            u = rng.random()
+            if rl and u < 0.25:
+                rl.append(rng.choice([rl[-1], cl.respell_label(rl[-1], rng.randrange(3))]))
+            elif u < 0.35:
+                q = rng.choice(_REDUCE_QUIRKS)
+                rl.append(q[rng.randrange(2)])
+            else:
+                rl.append(cl.draw_pair(rng)[0])
+        el = []
+        for j in range(ne):
+            base = rl[min(j, nr - 1)]
+            u = rng.random()
+            if el and u < 0.2:
+                el.append(rng.choice([el[-1], cl.respell_label(el[-1], rng.randrange(3))]))
+            elif u < 0.3:
+                q = rng.choice(_REDUCE_QUIRKS)
+                el.append(q[rng.randrange(2)])
+            else:
+                el.append(rng.choice([base, cl.draw_pair(rng)[1], cl.respell_label(base, rng.randrange(3)),
+                                      p[rng.randrange(len(p))]]))
+        tag = "valid"
+        if rng.random() < 0.08:
+            which = rng.random()
+            if which < 0.5 and el:
+                el[rng.randrange(len(el))] = rng.choice(_BAD_LABELS)
+            else:
+                rl[rng.randrange(len(rl))] = rng.choice(_BAD_LABELS)
+            tag = "bad-label"
+        if rng.random() < 0.5:
+            k, sr, se = rng.randrange(12), rng.randrange(3), rng.randrange(3)
+            rl = [cl.transpose_label(x, k, sr) if cl.enc(x) is not None else x for x in rl]
+            el = [cl.transpose_label(x, k, se) if cl.enc(x) is not None else x for x in el]
+            tag += "-transposed"
+        yield Case("chord.evaluate", [ri, rl, ei, el],
+                   lambda ri=ri, rl=rl, ei=ei, el=el: _py_evaluate_all(ri, rl, ei, el),
+                   tol=1e-9, tag=tag,
+                   info={"ref_intervals": [[str(s), str(e)] for s, e in ri], "ref_labels": rl,
+                         "est_intervals": [[str(s), str(e)] for s, e in ei], "est_labels": el},
+                   nontrivial=len(set(rl) & set(el)) > 0)
+
+
+SUITES.update({"chord_evaluate": suite_chord_evaluate})
 CHECKERS.update({"chord.transpose": check_chord_transpose, "chord.evaluate": check_chord_evaluate})
 ORACLES.update({"chord.transpose": gen_chord_transpose, "chord.evaluate": gen_chord_evaluate})
 
@@ -321,6 +404,16 @@ def classify(suite, d):
         return "chord.transpose", {"ref": i["ref"][k], "est": i["est"][k]}
     if suite == "chord_transpose_enc":
         return "chord.transpose", {"ref": i["label"], "est": i["label"]}
+    if suite == "chord_evaluate":
+        # a model/code disagreement on chord.evaluate: search this very annotation pair for a transposition /
+        # respelling that changes the real scores (every interval, the three spellings)
+        if any(cl.enc(x) is None for x in i["ref_labels"] + i["est_labels"]):
+            return None
+        fr = lambda rows: [[float(Fr(a)), float(Fr(b))] for a, b in rows]  # noqa: E731
+        variants = [[k, sp, (sp + k) % 3] for k in range(12) for sp in range(3)]
+        return "chord.evaluate", {"ref_intervals": fr(i["ref_intervals"]), "ref_labels": i["ref_labels"],
+                                  "est_intervals": fr(i["est_intervals"]), "est_labels": i["est_labels"],
+                                  "variants": variants}
     return None
 
 
